@@ -554,6 +554,30 @@ func inlineOneCall(module *Module, caller *Function, call StmtCall, callee *Func
 		}})
 	}
 
+	// 8c. A function-scope variable is initialised every time the function is
+	// entered. After inlining it lives in the caller, whose LocalVariable.Init is
+	// applied once per invocation of the caller only, so a call site executed
+	// repeatedly (in a loop) would see the previous call's value. Store the
+	// initial value (or zero) at the start of every inlined body.
+	for i := range callee.LocalVars {
+		lv := &callee.LocalVars[i]
+		ptrH := ExpressionHandle(len(caller.Expressions))
+		caller.Expressions = append(caller.Expressions, Expression{Kind: ExprLocalVariable{Variable: localOffset + uint32(i)}})
+		caller.ExpressionTypes = append(caller.ExpressionTypes, TypeResolution{
+			Value: PointerType{Base: lv.Type, Space: SpaceFunction},
+		})
+		var valH ExpressionHandle
+		if lv.Init != nil && int(*lv.Init) < len(calleeExprMap) {
+			valH = calleeExprMap[*lv.Init]
+		} else {
+			valH = ExpressionHandle(len(caller.Expressions))
+			caller.Expressions = append(caller.Expressions, Expression{Kind: ExprZeroValue{Type: lv.Type}})
+			tyCopy := lv.Type
+			caller.ExpressionTypes = append(caller.ExpressionTypes, TypeResolution{Handle: &tyCopy})
+		}
+		prefixStmts = append(prefixStmts, Statement{Kind: StmtStore{Pointer: ptrH, Value: valH}})
+	}
+
 	// 9. Rewrite StmtReturn in the inlined body. If the callee has early
 	// returns (returns inside nested if/switch/loop), wrap the body in a
 	// synthetic loop and replace each return with store+break. This mirrors
